@@ -1297,7 +1297,32 @@ def check_exists_binding(u):
     return obligations, failures, samples
 
 
-CHECKS = {"exists_binding": check_exists_binding, "seqmerge_params": check_seqmerge_params, "chunker_ranges": check_chunker_ranges, "persist_before_publish": check_persist_before_publish, "schema_reload": check_schema_reload, "cluster_id_fresh": check_cluster_id_fresh, "schema_ddl": check_schema_ddl, "schema_atomic": check_schema_atomic, "seq_range_guard": check_seq_range_guard, "exits_covered": check_exits_covered, "sub_lag_stops": check_sub_lag_stops, "single_snapshot": check_single_snapshot, "offer_loops": check_offer_loops, "speedy_prealloc": check_speedy_prealloc, "from_conn": check_from_conn, "sql_actor_scoping": check_sql_actor_scoping, "local_write_sequence": check_local_write_sequence, "insert_local_changes": check_insert_local_changes, "authz_layer": check_authz_layer, "readonly_guard": check_readonly_guard, "read_pool": check_read_pool}
+def check_feeds_fed(u):
+    """C14 "a client is told about every key a committed change touched": on each of the three paths that commit changes
+    (remote batch, fully buffered version, local write) BOTH feeds — subscriptions and row-level updates — are handed the committed
+    changes, after the commit."""
+    obligations, failures, samples = [], [], []
+    for (file, fn, commit_rx) in u["sites"]:
+        src, msk, o, c = _fn_body(file, fn)
+        body = msk[o:c]
+        name = "both-feeds-are-given-the-committed-changes:%s" % fn
+        obligations.append(name)
+        calls = [(o + m.start(), m.group(2)) for m in re.finditer(r"\bmatch_changes(_from_db_version)?\s*\(\s*agent\s*\.\s*(subs_manager|updates_manager)\s*\(\s*\)", body)]
+        kinds = set(k for _p, k in calls)
+        if kinds != {"subs_manager", "updates_manager"}:
+            failures.append((name, _line(src, o), "only %s is fed in %s" % (sorted(kinds) or "no feed", fn), file))
+            continue
+        if commit_rx:
+            cm = [o + m.start() for m in re.finditer(commit_rx, body)]
+            if not cm:
+                raise LostAnchor("%s: commit anchor /%s/ not found" % (fn, commit_rx))
+            if min(p_ for p_, _k in calls) < max(cm):
+                failures.append((name, _line(src, min(p_ for p_, _k in calls)), "a feed is given the changes before the transaction is committed", file))
+        samples.append("%s:%d %s feeds %s" % (file, _line(src, calls[0][0]), fn, sorted(kinds)))
+    return obligations, failures, samples
+
+
+CHECKS = {"feeds_fed": check_feeds_fed, "exists_binding": check_exists_binding, "seqmerge_params": check_seqmerge_params, "chunker_ranges": check_chunker_ranges, "persist_before_publish": check_persist_before_publish, "schema_reload": check_schema_reload, "cluster_id_fresh": check_cluster_id_fresh, "schema_ddl": check_schema_ddl, "schema_atomic": check_schema_atomic, "seq_range_guard": check_seq_range_guard, "exits_covered": check_exits_covered, "sub_lag_stops": check_sub_lag_stops, "single_snapshot": check_single_snapshot, "offer_loops": check_offer_loops, "speedy_prealloc": check_speedy_prealloc, "from_conn": check_from_conn, "sql_actor_scoping": check_sql_actor_scoping, "local_write_sequence": check_local_write_sequence, "insert_local_changes": check_insert_local_changes, "authz_layer": check_authz_layer, "readonly_guard": check_readonly_guard, "read_pool": check_read_pool}
 
 
 def run_unit(prop, u, tier, ctx, here):
